@@ -88,6 +88,73 @@ impl<F: TinyField> Type for HigherDegree<F> {
     }
 }
 
+/// `len` digits in 0..=2, each checked by the degree-3 gadget x (x-1) (x-2): a user-defined type whose gadget has degree
+/// above two AND is called several times (no shipped circuit combines the two).
+#[derive(Debug, Clone, PartialEq, Eq)]
+pub struct Ternary<F>(pub usize, PhantomData<F>);
+impl<F> Ternary<F> {
+    pub fn new(len: usize) -> Self {
+        Ternary(len, PhantomData)
+    }
+}
+impl<F: TinyField> Flp for Ternary<F> {
+    type Field = F;
+    fn gadget(&self) -> Vec<Box<dyn Gadget<F>>> {
+        vec![Box::new(PolyEval::new(vec![fe::<F>(0), fe::<F>(2), -fe::<F>(3), fe::<F>(1)], self.0))]
+    }
+    fn num_gadgets(&self) -> usize {
+        1
+    }
+    fn valid(&self, g: &mut Vec<Box<dyn Gadget<F>>>, input: &[F], joint_rand: &[F], _n: usize) -> Result<Vec<F>, FlpError> {
+        self.valid_call_check(input, joint_rand)?;
+        input.iter().map(|x| g[0].eval(std::slice::from_ref(x))).collect()
+    }
+    fn input_len(&self) -> usize {
+        self.0
+    }
+    fn proof_len(&self) -> usize {
+        1 + 3 * ((1 + self.0).next_power_of_two() - 1) + 1
+    }
+    fn verifier_len(&self) -> usize {
+        3
+    }
+    fn joint_rand_len(&self) -> usize {
+        0
+    }
+    fn eval_output_len(&self) -> usize {
+        self.0
+    }
+    fn prove_rand_len(&self) -> usize {
+        1
+    }
+}
+impl<F: TinyField> Type for Ternary<F> {
+    type Measurement = Vec<u32>;
+    type AggregateResult = Vec<u32>;
+    fn encode_measurement(&self, m: &Vec<u32>) -> Result<Vec<F>, FlpError> {
+        if m.len() != self.0 { return Err(FlpError::Encode("length".into())); }
+        Ok(m.iter().map(|x| F::from(*x)).collect())
+    }
+    fn truncate(&self, input: Vec<F>) -> Result<Vec<F>, FlpError> {
+        self.truncate_call_check(&input)?;
+        Ok(input)
+    }
+    fn decode_result(&self, data: &[F], _n: usize) -> Result<Vec<u32>, FlpError> {
+        Ok(data.iter().map(|x| x.to_u32()).collect())
+    }
+    fn output_len(&self) -> usize {
+        self.0
+    }
+}
+impl<F: TinyField> FromSpec for Ternary<F> {
+    fn meas(v: &Value) -> Vec<u32> {
+        all(v).into_iter().map(|x| x as u32).collect()
+    }
+    fn result(r: &Vec<u32>) -> Vec<u64> {
+        r.iter().map(|x| *x as u64).collect()
+    }
+}
+
 /// Measurement conversion from the spec's sequence form.
 pub trait FromSpec: Type {
     fn meas(v: &Value) -> Self::Measurement;
@@ -168,6 +235,7 @@ macro_rules! with_circuit {
         match c["kind"].as_str().unwrap() {
             "Count" => { let $t = Count::<$F>::new(); $body }
             "HigherDegree" => { let $t = $crate::circuits::HigherDegree::<$F>::new(); $body }
+            "Ternary" => { let $t = $crate::circuits::Ternary::<$F>::new(u("len") as usize); $body }
             "Sum" => { let $t = Sum::<$F>::new(u("max") as u32).unwrap(); $body }
             "SumVec" => { let $t = SumVec::<$F, ParallelSum<$F, Mul>>::new(u("max") as u32, u("len") as usize, u("chunk") as usize).unwrap(); $body }
             "Histogram" => { let $t = Histogram::<$F, ParallelSum<$F, Mul>>::new(u("len") as usize, u("chunk") as usize).unwrap(); $body }
